@@ -390,11 +390,7 @@ def pause_rule(ctx, db):
 def resumed_once(ctx, db):
     """each queued coroutine is resumed exactly once: the carriers of ready handles hand them over linearly (shared with C06)"""
     from . import C06
-    import inspect
-    code = inspect.getsource(C06.source_reset).replace("'C06.source-reset'", "'C05.handles-handed-over-once'").replace('def source_reset(', 'def _sr(')
-    ns = dict(C06.__dict__)
-    exec(code, ns)
-    ns['_sr'](ctx, db)
+    C06.source_reset(ctx, db, 'C05.handles-handed-over-once')
 
 
 # call sites of install_queue_* that need no local test of the mode, one reason each
